@@ -11,24 +11,31 @@ partitions.  `γ` = union of the partitions; `VP.Inv` = the vector is not empty 
 when there is no partitioning variable (this is what keeps the CRAB_ERROR branches of
 `merge_partitions()` / `remove_partitions()` unreachable).
 
-DEFECT (code as it is, replayed on the real code with
-`python3 tools/hrun.py h_dom2_27 --source h_dom2 --define -DVDOM=27 -- --ops f` where `f` holds the
-request line below: the final `(meet 1 0 2)` answers bottom although `(v0,v1,v2) = (5,5,0)` is in
-both operands, and value #0 is not `<=` itself):
+`update_partitions()` is modelled AFTER repo commit 8f4c9c7: its intervals are non-empty, sorted and
+strictly separated (`C03.vpart_update_disjoint`).
+
+PINNED-TREE DEFECT (fixed by 8f4c9c7; `VP.mergeAdjOld` / `VP.updatePartsOld` keep the old loop for the
+counterexample theorems): the merge loop did not compare a merged partition with its new
+successor, so intervals could overlap (`C03.vpart_update_disjoint_old_counterexample`); the
+element-wise branch of `apply_binary_op` (`&`, `&&`, `&=`) pairs the partitions by position, and the
+meet of two such values that share a state was bottom.  Replay (corpus/h_dom2/vpart_overlap.ops;
+`python3 tools/hrun.py h_dom2_27 --source h_dom2 --define -DVDOM=27 -- --ops f`): on the pinned tree
+the final `(meet 1 0 2)` answered bottom although `(v0,v1,v2) = (5,5,0)` is in both operands, and
+value #0 was not `<=` itself:
 
     (dom2.hist vpart-intervals (params) (ops (assign 0 v0 (lin 0)) (assume 0 (le (lin 0 (-1 v1))) (le (lin -10 (1 v1)))) (assign 0 v2 (lin 0)) (vpstart 0 v0) (top 1) (assign 1 v0 (lin 1)) (assume 1 (le (lin 1 (-1 v1))) (le (lin -2 (1 v1)))) (assign 1 v2 (lin 0)) (vpstart 1 v0) (join 0 0 1) (top 1) (assign 1 v0 (lin 2)) (assume 1 (le (lin 5 (-1 v1))) (le (lin -6 (1 v1)))) (assign 1 v2 (lin 1)) (vpstart 1 v0) (join 0 0 1) (assign 0 v0 (lin 0 (1 v1))) (assign 2 v0 (lin 0)) (assume 2 (le (lin 0 (-1 v1))) (le (lin -10 (1 v1)))) (assign 2 v2 (lin 1)) (vpstart 2 v0) (top 3) (assign 3 v0 (lin 1)) (assume 3 (le (lin 1 (-1 v1))) (le (lin -2 (1 v1)))) (assign 3 v2 (lin 1)) (vpstart 3 v0) (join 2 2 3) (top 3) (assign 3 v0 (lin 2)) (assume 3 (le (lin 5 (-1 v1))) (le (lin -6 (1 v1)))) (assign 3 v2 (lin 0)) (vpstart 3 v0) (join 2 2 3) (assign 2 v0 (lin 0 (1 v1))) (meet 1 0 2)))
 
-Suggested fix (checked on a private copy of the header: the replay and 2 x 3000 random histories of
-vpart-intervals / pvpart-sdbm are clean): in the merge loop of `update_partitions()` replace
-`if (it->ub >= next_it->lb) { merge; it = erase(next_it); --it; }` by
-`while (next_it != end && it->ub >= next_it->lb) { merge; next_it = erase(next_it); }`.
-
-What goes wrong: the merge loop of `update_partitions()` does not compare a merged
-partition with its new successor, so intervals can overlap afterwards
-(`C03.vpart_update_disjoint_counterexample`); the element-wise branch of `apply_binary_op`
-(`&`, `&&`, `&=`) then pairs the partitions by position although a state can sit in partition `i`
-of the left and partition `j ≠ i` of the right operand: the meet of two values that share a
-state is bottom (`C03.vpart_meet_sound_counterexample`, `C03.vpart_history_sound_counterexample`).
+STILL `_partial`: `&`, `&&`, histories and reflexivity of `<=`.  As statements about ALL values with
+`VP.Inv` they are false (values with overlapping intervals exist: the counterexamples, built with
+the old loop).  Full statements need the stronger pool invariant "intervals pairwise disjoint and
+every reachable state sits in a partition whose interval covers its value of the partitioning
+variable".  `C03.vpart_meet_sound_of_keys` shows it suffices, `C03.vpart_update_disjoint` establishes
+its first half after every `update_partitions()`; its preservation by EVERY operation is not
+proved: it needs (i) a law `s(x) ∈ dom[x]` for the base query, (ii) frame conditions "the statement
+does not change the partitioning variable" that the operation language `VP.Op` does not carry
+(`.map`, `.drop`, `.rename` come with an arbitrary relation), (iii) separation of the result of the
+two-cursor sweep of `operator|=`; and it is a property of (concrete set, value) pairs, not of
+values, so `history_sound_on` has to be run with the key-aware concretisation instead of `VP.γ`.
 -/
 open Crab Crab.Dom Crab.Dom.Fct
 
@@ -144,44 +151,53 @@ theorem C03.vpart_narrow_sound_of_keys (ev : S → V → Int) {a b : VP D} (ha :
   VP.narrow_sound_of ha hb (VP.zipLower_of_keys ev VP.lSound_narrow ha ka kb hd) s
 
 open VPartEx in
-/-- `x := y` on three separated partitions leaves the intervals `[-oo,+oo]`, `[5,5]`; the two
-    values obtained this way share the state `(x,y,f) = (5,5,0)` and their meet is bottom -/
+/-- pinned-tree behaviour (fixed by 8f4c9c7): `x := y` on three separated partitions left the
+    intervals `[-oo,+oo]`, `[5,5]`; two such values share the state `(x,y,f) = (5,5,0)` and their
+    meet is bottom.  The values still satisfy `VP.Inv`, so the statement over all such values fails -/
 theorem C03.vpart_meet_sound_counterexample : ¬ C03.vpart_meet_sound_Statement := by
   intro h
-  have h1 : VP.γ (VP.meet (xy W0) (xy Z0)) (st 5 5 0) :=
-    h V3 (St V3) constVDom (xy W0) (xy Z0) (st 5 5 0)
-      (VP.assignOp_inv _ _ (VP.inv_of_some (x := 0) rfl (by simp [W0])))
-      (VP.assignOp_inv _ _ (VP.inv_of_some (x := 0) rfl (by simp [Z0])))
+  have h1 : VP.γ (VP.meet (xyOld W0) (xyOld Z0)) (st 5 5 0) :=
+    h V3 (St V3) constVDom (xyOld W0) (xyOld Z0) (st 5 5 0) inv_xyOld_W0 inv_xyOld_Z0
       (γ_of_vMem (by decide)) (γ_of_vMem (by decide))
   exact VP.not_γ_of_isBottom (by decide) _ h1
 
 open VPartEx in
 theorem C03.vpart_narrow_sound_counterexample : ¬ C03.vpart_narrow_sound_Statement := by
   intro h
-  have h1 : VP.γ (VP.narrow (xy W0) (xy Z0)) (st 5 5 0) :=
-    h V3 (St V3) constVDom (xy W0) (xy Z0) (st 5 5 0)
-      (VP.assignOp_inv _ _ (VP.inv_of_some (x := 0) rfl (by simp [W0])))
-      (VP.assignOp_inv _ _ (VP.inv_of_some (x := 0) rfl (by simp [Z0])))
+  have h1 : VP.γ (VP.narrow (xyOld W0) (xyOld Z0)) (st 5 5 0) :=
+    h V3 (St V3) constVDom (xyOld W0) (xyOld Z0) (st 5 5 0) inv_xyOld_W0 inv_xyOld_Z0
       (γ_of_vMem (by decide)) (γ_of_vMem (by decide))
   exact VP.not_γ_of_isBottom (by decide) _ h1
 
-/-- the root cause: "partitions are sorted and they don't overlap" after `update_partitions()` -/
-def C03.vpart_update_disjoint_Statement : Prop :=
-  ∀ (V S : Type) [DecidableEq V] (D : VDom V S) (a : VP D), a.var ≠ none →
-    VP.KeysDisjoint (VP.updateParts a).parts
+/-- "partitions are sorted and they don't overlap" after `update_partitions()` (code after
+    8f4c9c7): the intervals are non-empty, each strictly before the next, hence pairwise disjoint -/
+theorem C03.vpart_update_disjoint {a : VP D} (hv : a.var ≠ none) :
+    VP.keysSep (VP.updateParts a).parts = true ∧ VP.KeysDisjoint (VP.updateParts a).parts :=
+  ⟨VP.updateParts_sep hv, VP.keysDisjoint_of_sep _ (VP.updateParts_sep hv)⟩
 
-/-- with at most two partitions left after dropping the empty ones, the loop does separate them -/
-theorem C03.vpart_update_disjoint_partial {a : VP D} {x : V} (hv : a.var = some x)
-    (h : (VP.refreshGo x 0 a.parts).1.length ≤ 2) : VP.KeysDisjoint (VP.updateParts a).parts :=
-  VP.updateParts_short_disjoint hv h
+/-- the same for the pinned tree (`VP.updatePartsOld`, fixed by 8f4c9c7) -/
+def C03.vpart_update_disjoint_old_Statement : Prop :=
+  ∀ (V S : Type) [DecidableEq V] (D : VDom V S) (a : VP D), a.var ≠ none →
+    VP.KeysDisjoint (VP.updatePartsOld a).parts
+
+/-- with at most two partitions left after dropping the empty ones, the old loop did separate them -/
+theorem C03.vpart_update_disjoint_old_partial {a : VP D} {x : V} (hv : a.var = some x)
+    (h : (VP.refreshGo x 0 a.parts).1.length ≤ 2) : VP.KeysDisjoint (VP.updatePartsOld a).parts :=
+  VP.updatePartsOld_short_disjoint hv h
 
 open VPartEx in
-theorem C03.vpart_update_disjoint_counterexample : ¬ C03.vpart_update_disjoint_Statement := by
+theorem C03.vpart_update_disjoint_old_counterexample : ¬ C03.vpart_update_disjoint_old_Statement := by
   intro h
   have h1 := h V3 (St V3) constVDom (VP.mapParts (cAssignV 0 1) W0) (by simp [VP.mapParts, W0])
   have h2 := VP.keysDisjoint_count h1 5
   revert h2
   decide
+
+open VPartEx in
+/-- the same scenario with the code after 8f4c9c7: one partition `[-oo,+oo]` is left, the meet keeps
+    `(5,5,0)` and `<=` is reflexive (the real code answers likewise on the replay line) -/
+example : keys (xy W0) = [Itv.top] ∧ vMem (VP.meet (xy W0) (xy Z0)) (st 5 5 0) = true ∧
+    VP.leq (xy W0) (xy W0) = true ∧ keys (xyOld W0) = [Itv.top, Itv.single 5] := by decide
 
 /-! ## histories -/
 
@@ -278,47 +294,33 @@ theorem C03.vpart_history_inv (ops : List (VP.Op D)) (p : Pool (VP D)) (hI : ∀
   exact C03.vpart_inv_step op
 
 open VPartEx in
-/-- three steps from a pool whose intervals are separated and cover their partitions:
-    `x := y` on both values, then `&`: the state `(5,5,0)` is reachable in both, the result is
-    bottom.  (Same scenario on `value_partitioning_domain<interval_domain>`: the replay line.) -/
+/-- one `&` from a pool holding the two values the pinned tree reached by `x := y` (overlapping
+    intervals, `VP.Inv` holds): `(5,5,0)` is in both, the result is bottom.  With the code after
+    8f4c9c7 these pool values are no longer produced, but the statement quantifies over every pool
+    with `VP.Inv`: see the header for what a full statement needs. -/
 theorem C03.vpart_history_sound_counterexample : ¬ C03.vpart_history_sound_Statement := by
   intro h
-  have h1 := h V3 (St V3) constVDom constDom_topSound [opXY 0, opXY 1, .meet 2 0 1]
-    (by
-      intro op hop
-      simp only [List.mem_cons, List.mem_nil_iff, or_false] at hop
-      rcases hop with rfl | rfl | rfl
-      · exact cAssignV_sound 0 1
-      · exact cAssignV_sound 0 1
-      · trivial)
+  have h1 := h V3 (St V3) constVDom constDom_topSound [.meet 2 0 1]
+    (by intro op hop; simp only [List.mem_singleton] at hop; subst hop; trivial)
     pool0 cpool0
     (by
       intro i
       unfold pool0
       split
-      · exact VP.inv_of_some (x := 0) rfl (by simp [W0])
+      · exact inv_xyOld_W0
       · split
-        · exact VP.inv_of_some (x := 0) rfl (by simp [Z0])
+        · exact inv_xyOld_Z0
         · exact VP.inv_single _ _)
     (by
       intro i s hc
-      rcases hc with ⟨rfl, rfl⟩ | ⟨rfl, rfl⟩
+      obtain ⟨hi, rfl⟩ := hc
+      rcases hi with rfl | rfl
       · exact γ_of_vMem (by decide)
       · exact γ_of_vMem (by decide))
     2 (st 5 5 0)
     (by
-      simp only [VP.toHist, List.map, collHist, List.foldl, opXY, VP.Op.toStep, Step.coll, CPool.set]
-      simp only [if_true, if_false, show (2 : Nat) ≠ 1 by decide, show (2 : Nat) ≠ 0 by decide,
-        show (1 : Nat) ≠ 0 by decide, show (0 : Nat) ≠ 1 by decide]
-      refine ⟨⟨st 0 5 0, Or.inl ⟨rfl, rfl⟩, ?_⟩, ⟨st 2 5 0, Or.inr ⟨rfl, rfl⟩, ?_⟩⟩
-      · funext v; match v with
-        | 0 => rfl
-        | 1 => rfl
-        | 2 => rfl
-      · funext v; match v with
-        | 0 => rfl
-        | 1 => rfl
-        | 2 => rfl)
+      simp only [VP.toHist, List.map, collHist, List.foldl, VP.Op.toStep, Step.coll, CPool.set, if_true]
+      exact ⟨⟨Or.inl rfl, rfl⟩, ⟨Or.inr rfl, rfl⟩⟩)
   exact VP.not_γ_of_isBottom (by decide) _ h1
 
 /-! ### non-vacuity over the interval instance -/
